@@ -307,6 +307,9 @@ def build_for(pid, tier):
         O += miner_cron.build_recover(pid, tier)
         from . import miner_replica
         O += miner_replica.build_for(pid, tier)
+    if pid in ('C15', 'C03', 'C05'):
+        O += miner_cron.build_declare_faults(pid, tier)
+        O += miner_cron.build_terminate_sectors(pid, tier)
     if pid in ('C15', 'C01', 'C03'):
         D = miner_cron.build_dispute(pid, tier)
         O += D if tier != 'quick' else D[:1]
